@@ -375,6 +375,20 @@ Proof.
   split; [reflexivity|split; [constructor|split; [intros ? ? []|intros xps Hxps; discriminate Hxps]]].
 Qed.
 
+Lemma entries_aput {A} (t : list (N * A)) g x (r : option N) :
+  (forall g' v, aget t g' = Some v -> r = Some g') -> r = Some g ->
+  forall g' v, aget (aput t g x) g' = Some v -> r = Some g'.
+Proof.
+  intros H Hr g' v. rewrite aget_aput. destruct (N.eqb_spec g' g) as [->|]; [intros _; exact Hr|apply H].
+Qed.
+
+Lemma entries_adel {A} (t : list (N * A)) g (r : option N) :
+  (forall g' v, aget t g' = Some v -> r = Some g') ->
+  forall g' v, aget (adel t g) g' = Some v -> r = Some g'.
+Proof.
+  intros H g' v. rewrite aget_adel. destruct (g' =? g); [discriminate|apply H].
+Qed.
+
 (* ===================================================== c15_dequeue_order == *)
 
 Definition dq_early (x : ppc) : bool :=
@@ -482,11 +496,46 @@ Proof.
     clear HR H Hv Hc Hi. destruct HR1 as ((R1 & R2 & R3) & Hgd). unfold dq_v in R3. rewrite Hgd in R3.
     unfold step_deq, take_deq, guard in Hp.
     destruct (dp s1) eqn:Edp; destruct e; try discriminate Hp; bm Hp; inv_some Hp; cbn [ev_g] in Hg; injection Hg as ->.
-    all: try (exists t; split; [reflexivity|]; unfold dq_R, dq_v; sf; rewrite ?Hgd;
-              split; [exact R1|split; [intros Hx; specialize (R2 Hx); discriminate R2|]]; auto; fail).
-    all: idtac "LEFT". Show.
-    all: admit.
-  - admit.
-  - admit.
-  - admit.
-Admitted.
+    all: try (exists t; split; [reflexivity|]; unfold dq_R, dq_v; sf;
+              split; [exact R1|split; [intros Hx; specialize (R2 Hx); discriminate R2|]]; rewrite ?Hgd; eauto; fail).
+    (* a message is dequeued *)
+    all: try (exists (aput t g (Some m)); split;
+              [cbn [dq_step]; destruct R3 as [R3|R3]; rewrite R3; reflexivity|];
+              unfold dq_R, dq_v; sf;
+              split; [apply entries_aput; assumption|split; [intros Hx; specialize (R2 Hx); discriminate R2|]];
+              rewrite Hgd, aget_aput, N.eqb_refl; eauto; fail).
+    (* the PUBLISH is sent *)
+    all: destruct R3 as (xm & xid & Ep & R3);
+         match goal with Hq : packet_eqb _ _ = true |- _ => apply packet_eqb_eq in Hq; rewrite <- Hq end;
+         rewrite Ep in *; try discriminate;
+         (exists (aput t g None); split; [cbn [dq_step]; rewrite R3, message_eqb_refl; reflexivity|]);
+         unfold dq_R, dq_v; sf;
+         (split; [apply entries_aput; assumption|split; [intros Hx; specialize (R2 Hx); discriminate R2|]]);
+         rewrite ?Hgd, ?aget_aput, ?N.eqb_refl; auto.
+  - (* acker *)
+    assert (HR1 : dq_R s1 t /\ gdeq s1 = gdeq s).
+    { destruct Hv as [[-> _]|(_ & _ & ->)]; [split; [exact HR|reflexivity]|].
+      split; [apply dq_R_roles; [right; reflexivity|exact HR]|reflexivity]. }
+    destruct HR1 as (HR1 & Hgd).
+    assert (Hn : aget t g = None).
+    { destruct (aget t g) eqn:E; [|reflexivity]. destruct HR as (R1 & _). specialize (R1 _ _ E).
+      rewrite R1, is_role_some in Hr2. discriminate Hr2. }
+    exists t. split; [eapply dq_noentry_step; [eapply step_ack_event; exact Hp|exact Hg|exact Hn]|].
+    destruct (step_ack_shape _ _ _ Hp) as (a & dy & t1 & t2 & t3 & q & ->).
+    unfold dq_R, dq_v in *; sf; exact HR1.
+  - (* cleanup *)
+    assert (HR1 : dq_R s1 t).
+    { destruct Hv as [[-> _]|(_ & _ & ->)]; [exact HR|]. apply dq_R_roles; [right; reflexivity|exact HR]. }
+    exists t. split; [apply dq_neutral_step, cleanup_event_dq; eapply step_cleanup_event; exact Hp|].
+    destruct (step_cleanup_shape _ _ _ Hp) as (p & d & a & l & -> & _ & Hx). destruct HR1 as (R1 & R2 & R3).
+    unfold dq_R, dq_v in *; sf.
+    destruct Hx as [(-> & -> & _)|(_ & _ & -> & -> & _)]; [repeat split; assumption|].
+    split; [exact R1|split; [discriminate|]]. destruct (dp s1); auto.
+  - subst e s'. exists t. split; [reflexivity|]. unfold dq_R, dq_v in *; sf; exact HR.
+Qed.
+
+Theorem c15_dequeue_order_holds : forall es s, bc_run es = Some s -> c15_dequeue_order es = true.
+Proof.
+  apply (scan_sound dq_step dq_R dq_step_ok).
+  unfold dq_R, dq_v, bc_init. sf. split; [intros g v E; discriminate E|split; reflexivity].
+Qed.
